@@ -316,14 +316,14 @@ PROPS["C14"] = dict(
     harness_timeout=dict(quick=1500, thorough=5400),
     title="epoch clock is monotone; a pinned participant sees at most one advance", level="proof",
     modules=_L3M, contract_groups=_L3G,
-    kani=dict(quick=_h("epoch_h.rs", _EPOCH) + _h(_INT, ["c16_pin", "c14_repin_without_collect", "c13_try_advance", "c14_try_advance_monotone", "c16_repin", "c16_unpin", "c15_flush", "c13_push_bag"])),
+    kani=dict(quick=_h("epoch_h.rs", _EPOCH) + _h(_INT, ["c16_pin", "c14_repin_without_collect", "c13_try_advance", "c14_try_advance_monotone", "c14_try_advance_monotone_under_reannouncement", "c16_repin", "c16_unpin", "c15_flush", "c13_push_bag"])),
     kani_flags=_FAST,
     loops="pin's validation loop by the stutter lemma (budget B); the registry scan inside try_advance: registry of 2 hand-built participants (bounded, see bounded)",
     bounded=["Global::try_advance: registry of 2 hand-built participants (the scan itself is C18's sequential contract)"],
     functions_under_contract=["Epoch::{starting,wrapping_sub,is_pinned,pinned,unpinned,successor,value}", "AtomicEpoch::{new,load,store,compare_exchange}", "Global::try_advance", "Local::{pin,repin,repin_without_collect,unpin,schedule_collection}"],
     expected_obligations=["C14.epoch.successor.post", "C14.clock.successor_is_single_step_forward", "C14.advance.single_step", "C14.advance.monotone_single_step", "C14.advance.only_to_successor_of_callers_epoch",
                           "C14.advance.pinned_participant_sees_at_most_one_advance", "C14.pin.announced_epoch_is_current_at_return", "C14.pin.never_moves_the_clock", "C14.repin_wc.announces_global_epoch_just_read_pinned",
-                          "C14.unpin.never_moves_the_clock", "C13.push_bag.runs_nothing_and_never_moves_the_clock"],
+                          "C14.unpin.never_moves_the_clock", "C13.push_bag.runs_nothing_and_never_moves_the_clock", "C14.advance.never_steps_back_even_if_callers_announcement_moves_during_the_scan"],
     trusted_base=[A_TOOLS, A_SC, A_RG + " - here: invariant J (while a validated participant stays pinned at e the clock is e or e+1) is assumed of the environment and shown preserved by every function that writes the clock (try_advance is the only one)"],
     assumptions=[A_SC, A_RG, "multi-advancer schedules are covered by the R/G step (c14_try_advance_monotone), not enumerated"],
 )
@@ -395,6 +395,7 @@ PROPS["C18"] = dict(
 # "every size" - reported separately in the evidence and never counted as proved-without-bound.
 BOUNDED_HARNESSES = {
     "c13_collect": "global queue of <= 2 sealed bags", "c13_try_advance": "registry of 2 participants", "c14_try_advance_monotone": "registry of 2 participants",
+    "c14_try_advance_monotone_under_reannouncement": "registry of 2 participants (one removed)",
     "c18_try_advance_stalled": "registry of 3 participants, one environment step", "c15_queue_drop_runs_leftovers": "queue of <= 2 sealed bags of 1 function", "c15_bag": "bag capacity 3", "c15_defer": "bag capacity 2", "c15_flush": "bag capacity 2", "c15_finalize": "bag capacity 2", "c13_push_bag": "bag of <= 2 functions",
     "c17_queue_sequential": "queue length <= 3, sequential", "c17_pop_if_under_interference": "queue of 2, one environment step",
     "c18_delete_is_atomic": "one entry, <= 2 environment writes", "c18_iter_sequential": "registry of <= 3 entries, sequential", "c18_insert_delete": "registry of <= 3 entries, sequential",
